@@ -403,6 +403,74 @@ def plan(tier):
     return P
 
 
+def _formula_comp(mol):
+    """Independent composition of an RDKit molecule from its molecular formula string (Hill notation + charge)."""
+    import re as _re
+    from rdkit.Chem.rdMolDescriptors import CalcMolFormula
+
+    f = CalcMolFormula(mol)
+    m = _re.match(r"^((?:[A-Z][a-z]?\d*)*)([+-]\d*)?$", f)
+    comp = {}
+    for sym, n in _re.findall(r"([A-Z][a-z]?)(\d*)", m.group(1)):
+        comp[sym] = comp.get(sym, 0) + (int(n) if n else 1)
+    q = 0
+    if m.group(2):
+        sign = 1 if m.group(2)[0] == "+" else -1
+        q = sign * (int(m.group(2)[1:]) if len(m.group(2)) > 1 else 1)
+    if q:
+        comp["Q"] = q
+    return comp
+
+
+CONTRACT_SMILES = [
+    "CCO", "[H][H]", "[2H]Cl", "[H+]", "[H-]", "[OH-]", "[NH4+]", "c1cc[nH]c1", "C[C@H](N)C(=O)O", "[U]", "[Th]", "[Na+].[Cl-]",
+    "CC(=O)[O-].[Na+]", "O=[Mn](=O)(=O)O[K]", "[13CH4]", "C[N+](C)(C)C.[I-]", "O", "OO", "[O]", "[H]", "B(O)(O)O", "[BH4-]", "[AlH4-]",
+    "c1ccccc1", "C1=CC=CC=C1", "[Cu+2]", "[O-]S(=O)(=O)[O-]", "N#N", "[N-]=[N+]=[N-]",
+]
+
+
+def _contract_table():
+    """The stub worlds assume 'decompose(s) = true composition of s, hydrogens and charge included'.  That contract of
+    the real function with real RDKit is validated on a fixed table (finite concrete check, not a solver result):
+    the rule-database and template compounds plus a list of hydrogen/charge/isotope edge cases."""
+    import time as _t
+
+    import rdkit.Chem as C
+    from rdkit import RDLogger
+
+    RDLogger.DisableLog("rdApp.*")
+    from vf.world import pipe as _p
+
+    t0 = _t.time()
+    _dec.Chem = C
+    smiles = set(CONTRACT_SMILES)
+    try:
+        for r in _p.shipped_rules():
+            smiles.add(r["smiles"])
+    except Exception:
+        pass
+    bad = []
+    n = 0
+    for smi in sorted(smiles):
+        mol = C.MolFromSmiles(smi)
+        if mol is None:
+            continue
+        n += 1
+        want = _formula_comp(mol)
+        got = RSMIDecomposer.decompose(smi)
+        if got != want:
+            bad.append((smi, got, want))
+    return {"name": "decompose.real-rdkit-contract-table", "engine": "table", "group": "decompose", "queries": n,
+            "status": "violation" if bad else "discharged", "solver_s": round(_t.time() - t0, 3),
+            "detail": "%d SMILES: real decompose == composition from RDKit's molecular formula; mismatches: %r" % (n, bad[:4]),
+            "replay_payload": {"bad": [b[0] for b in bad]}}
+
+
+def replay(data):
+    ob = _contract_table()
+    return {"reproduced": ob["status"] == "violation", "detail": ob["detail"]}
+
+
 def extra(tier):
     """Level-2 witness on the real code + real RDKit for the repaired heavy-element defect."""
     import importlib
@@ -413,7 +481,7 @@ def extra(tier):
     b = RSMIDecomposer.decompose("[Th]")
     same = a == b
     return {
-        "obligations": [],
+        "obligations": [_contract_table()],
         "findings": [
             {
                 "id": "C07-heavy-elements-collapse",
